@@ -106,6 +106,26 @@ def run(eng, rep, tier):
               "the root is the node of the full-span cell that equals the normal form's start symbol",
               "the root of the CNF tree is not selected by the start symbol", s, site=site_of(prog, f, f.node))
 
+    # -------------------------------------------------------------- C15.5 the two derivation listings are mirror images
+    from . import mirror
+    fl = prog.method("ParseTree", "get_leftmost_derivation")
+    fr = prog.method("ParseTree", "get_rightmost_derivation")
+    tl, why_l = mirror.update_table(fl.node)
+    tr, why_r = mirror.update_table(fr.node)
+    if tl is None or tr is None:
+        rep.error("R7", "C15.5", fl.qname, "derivation-siblings-agree",
+                  "the son loop of a derivation listing is of a shape the rule cannot follow (%s)" % (why_l or why_r),
+                  site=site_of(prog, fl, fl.node))
+    else:
+        def show(t):
+            return "; ".join("%s -> %s" % (" and ".join("%s=%s" % (a, v) for a, v in g) or "always",
+                                           ", ".join("+".join(k[1]) for k in ks) or "nothing") for g, ks in sorted(t))
+        ob.decide("R7", "C15.5", fl, "derivation-siblings-agree", tl == tr,
+                  "leftmost and rightmost listing add a son's contribution to the rewritten part by the same case analysis",
+                  "the two listings disagree on what a son adds to the part already rewritten (leftmost: %s / rightmost: "
+                  "%s): a son whose own list adds no step - a terminal leaf, a variable rewritten to epsilon - is handled "
+                  "differently, so one of the two lists sentential forms that are not in the derivation"
+                  % (show(tl), show(tr)), None, site=site_of(prog, fl, fl.node))
     # -------------------------------------------------------------- C15.4 documented exceptions
     table = [("CFG", "get_cnf_parse_tree", CFG, "DerivationDoesNotExist"),
              ("LLOneParser", "get_llone_parse_tree", "pyformlang.cfg.llone_parser.LLOneParser", "NotParsableException"),
